@@ -103,6 +103,9 @@ func corpus(e *ev.Env, w *witnesses) {
 		sk.Keep, sk.ShapeBase, sk.MemStore = keepList, 4, true
 		all("next-exempted-with-any-key-header-memory-storage", sk, faultPlan{})
 	}
+	// keep-alive: the connection that carried the first request of key A goes on with another
+	// key while a duplicate of A is still pending (all schedules of the small scenario)
+	all("connection-goes-on-with-another-key", scenario{Reqs: []reqSpec{dup("POST"), dup("POST"), other("POST")}, Workers: [][]int{{0, 2}, {1}}, ReuseCtx: true}, faultPlan{})
 	// harness self-check: sharding a schedule tree by a prefix of choices neither loses nor
 	// duplicates schedules (same set of interleavings as the unsharded DFS)
 	e.Corpus("selfcheck-prefix-sharding", func(c *ev.Case) {
